@@ -15,6 +15,7 @@ package main
 
 import (
 	"bytes"
+	"context"
 	"encoding/json"
 	"flag"
 	"fmt"
@@ -68,8 +69,15 @@ func goEnv() []string {
 	return env
 }
 
+// procBackstop bounds every child process of the driver: whatever happens
+// inside a child (a library call that blocks forever outside any watchdog's
+// reach), the check ends - with exit 2, never with a verdict.
+var procBackstop = 40 * time.Minute
+
 func run(dir string, env []string, name string, args ...string) (string, error) {
-	cmd := exec.Command(name, args...)
+	ctx, cancel := context.WithTimeout(context.Background(), procBackstop)
+	defer cancel()
+	cmd := exec.CommandContext(ctx, name, args...)
 	cmd.Dir = dir
 	if env != nil {
 		cmd.Env = env
@@ -78,6 +86,9 @@ func run(dir string, env []string, name string, args ...string) (string, error) 
 	cmd.Stdout = &out
 	cmd.Stderr = &out
 	err := cmd.Run()
+	if ctx.Err() != nil {
+		die(2, "child process %s %s did not finish within the driver's backstop of %v (stopped); last output:\n%s", filepath.Base(name), strings.Join(args, " "), procBackstop, tail(out.String(), 20))
+	}
 	return out.String(), err
 }
 
@@ -269,12 +280,18 @@ func runProcs(n int, mk func(i int) (bin string, args []string, env []string, ou
 			sem <- struct{}{}
 			defer func() { <-sem }()
 			bin, args, env, of := mk(i)
-			cmd := exec.Command(bin, args...)
+			ctx, cancel := context.WithTimeout(context.Background(), procBackstop)
+			defer cancel()
+			cmd := exec.CommandContext(ctx, bin, args...)
 			cmd.Dir = scratch
 			cmd.Env = append(os.Environ(), env...)
 			var so, se bytes.Buffer
 			cmd.Stdout, cmd.Stderr = &so, &se
 			err := cmd.Run()
+			if ctx.Err() != nil {
+				err = fmt.Errorf("did not finish within the driver's backstop of %v (stopped): %v", procBackstop, err)
+				se.WriteString("\n" + err.Error())
+			}
 			r := procResult{idx: i, out: so.String(), err: err, file: of, stderr: se.String()}
 			if ee, ok := err.(*exec.ExitError); ok {
 				r.exit = ee.ExitCode()
